@@ -140,6 +140,83 @@ pub broadcast proof fn lemma_shapes_push(a: Seq<ClauseReport>, e: ClauseReport)
     lemma_shapes_prefix(a, seq![e], a.len());
     assert(a.push(e) =~= a + seq![e]);
 }
+
+// ---- composition with group `report`: on rule records, the Rule entries are exactly the FAIL rules, in order ----
+pub open spec fn shape_names(sh: Seq<Shape>) -> Seq<Seq<char>>
+    decreases sh.len()
+{
+    if sh.len() == 0 { Seq::empty() }
+    else {
+        let rest = shape_names(sh.drop_last());
+        match sh.last() { Shape::RuleE { name, .. } => rest.push(name), _ => rest }
+    }
+}
+
+pub proof fn lemma_entry_names_are_shape_names(v: Seq<ClauseReport>)
+    ensures rule_entry_names(v) == shape_names(shapes(v)),
+    decreases v.len()
+{
+    if v.len() > 0 {
+        let p = v.drop_last();
+        lemma_entry_names_are_shape_names(p);
+        assert(v =~= p.push(v.last()));
+        lemma_shapes_push(p, v.last());
+        let sp = shapes(p);
+        assert(shapes(v) == sp.push(shape_of(v.last())));
+        assert(shapes(v).drop_last() =~= sp);
+        assert(shapes(v).last() == shape_of(v.last()));
+    } else {
+        assert(shapes(v) =~= Seq::<Shape>::empty());
+    }
+}
+
+pub proof fn lemma_shape_names_push(a: Seq<Shape>, s: Shape)
+    ensures shape_names(a.push(s)) == (match s { Shape::RuleE { name, .. } => shape_names(a).push(name), _ => shape_names(a) }),
+{
+    assert(a.push(s).drop_last() =~= a);
+}
+
+pub proof fn lemma_rule_records(checks: Seq<EventRecord>, n: nat)
+    requires all_rules(checks), n <= checks.len(),
+    ensures shape_names(many_recs(checks, n)) == failed_names(checks.take(n as int)),
+    decreases n
+{
+    if n == 0 {
+        assert(checks.take(0) =~= Seq::<EventRecord>::empty());
+    } else {
+        lemma_rule_records(checks, (n - 1) as nat);
+        let r = checks[n - 1];
+        let prev = many_recs(checks, (n - 1) as nat);
+        assert(rule_status_of(r) is Some);
+        assert(checks.take(n as int).drop_last() =~= checks.take(n - 1));
+        assert(checks.take(n as int).last() == r);
+        match r.container {
+            Some(RecordType::RuleCheck(ns)) => {
+                if ns.status == Status::FAIL {
+                    let e = Shape::RuleE { name: ns.name@, custom: opt_view(ns.message), kids: many_recs(r.children@, r.children@.len()) };
+                    assert(one_rec(r) =~= seq![e]);
+                    assert(prev + seq![e] =~= prev.push(e));
+                    lemma_shape_names_push(prev, e);
+                } else {
+                    assert(one_rec(r) =~= Seq::<Shape>::empty());
+                    assert(prev + Seq::<Shape>::empty() =~= prev);
+                }
+            }
+            _ => {}
+        }
+    }
+}
+
+pub broadcast proof fn lemma_rules_only(checks: Seq<EventRecord>, res: Seq<ClauseReport>)
+    ensures
+        all_rules(checks) && shapes(res) == many_recs(checks, checks.len()) ==> #[trigger] rule_entry_names(res) == #[trigger] failed_names(checks),
+{
+    if all_rules(checks) && shapes(res) == many_recs(checks, checks.len()) {
+        lemma_entry_names_are_shape_names(res);
+        lemma_rule_records(checks, checks.len());
+        assert(checks.take(checks.len() as int) =~= checks);
+    }
+}
 } // mod failed_model
 pub use failed_model::*;
-broadcast use {failed_model::lemma_shapes_concat, failed_model::lemma_shapes_push};
+broadcast use {failed_model::lemma_shapes_concat, failed_model::lemma_shapes_push, failed_model::lemma_rules_only};
